@@ -100,8 +100,8 @@ func H_C19_Errors() {
 		exited := rt.Exits(func() { doc, err = fs.Retrieve(q, nil) })
 		rt.Assert(!exited, "C19.noexit")
 		rt.Assert(err != nil && doc == nil, "C19.errorreturn.unknown")
-	case 1, 2, 3: // emptied, junk, unreadable entry
-		how := rt.NondetChoice("how", 3)
+	case 1, 2, 3: // emptied, junk, unreadable, cut-short entry
+		how := rt.NondetChoice("how", 4)
 		if fs.Store(a, nil) != nil {
 			rt.Assert(false, "C19.store.usable")
 			return
